@@ -29,6 +29,14 @@ func H_history() {
 		sv := "$b" + names[slot]
 		switch op {
 		case 0:
+			// a fifth way to instantiate: the raw class without type arguments (its T-typed members
+			// are unconstrained; it must not loosen or tighten any other instance)
+			if symx.Choose("raw"+names[s], 2) == 1 {
+				src += sv + " = new Box();\n"
+				slotType[slot] = 4
+				distinct[4] = true
+				break
+			}
 			src += sv + " = new Box<" + typeArgs[arg] + ">();\n"
 			slotType[slot] = arg
 			distinct[arg] = true
@@ -41,7 +49,7 @@ func H_history() {
 				stmt = sv + "->set(" + valueExprs[arg] + ");"
 			}
 			src += "try { " + stmt + " mark(1); } catch (Throwable $e) { mark(0); }\n"
-			wantAccept = append(wantAccept, arg == slotType[slot])
+			wantAccept = append(wantAccept, arg == slotType[slot] || slotType[slot] == 4)
 			mixedBefore = append(mixedBefore, len(distinct) > 1)
 		}
 	}
